@@ -8,6 +8,7 @@ func init() {
 	vfHarnesses["C03_issimple_3"] = vfhC03IsSimple3
 	vfHarnesses["C03_issimple_4"] = vfhC03IsSimple4
 	vfHarnesses["C03_ring_4"] = vfhC03Ring4
+	vfHarnesses["C03_multipolygon_empty_position"] = vfhC03MultiPolygonEmptyPosition
 }
 
 // Validate on a Point: nil iff empty or X and Y are finite; Z/M are never
@@ -102,6 +103,53 @@ func vfhC03Ring4() {
 		vfAssert(rot.Validate() == nil, "valid under rotation of the start vertex")
 		rev := NewPolygon([]LineString{vfLineXY(p0, p2, p1, p0)})
 		vfAssert(rev.Validate() == nil, "valid under reversal")
+		vfReach("valid")
+	} else {
+		vfReach("invalid")
+	}
+	vfReach("end")
+}
+
+// MultiPolygon.Validate on the right triangle (0,0),(4,0),(0,4) and a lattice
+// translate of the right triangle (0,0),(2,0),(0,2), with an EMPTY member
+// before, between or after them (or none), in either member order: valid iff
+// the interiors are disjoint (for this family the boundaries then meet in at
+// most one point).
+func vfhC03MultiPolygonEmptyPosition() {
+	fixed := vfTriangle(XY{0, 0}, XY{4, 0}, XY{0, 4})
+	t := vfPt("t")
+	other := vfTriangle(t, XY{t.X + 2, t.Y}, XY{t.X, t.Y + 2})
+	// Stated bound: no edge of one triangle properly crosses an edge of the
+	// other (a proper crossing makes Validate compare crossing points that are
+	// quotients, which the exact domain cannot carry: DESIGN 4.5). What remains:
+	// disjoint, touching at a vertex or along an edge, and nested.
+	f := []XY{{0, 0}, {4, 0}, {0, 4}}
+	o := []XY{t, {t.X + 2, t.Y}, {t.X, t.Y + 2}}
+	for i := 0; i < 3; i++ {
+		for j := 0; j < 3; j++ {
+			vfAssume(!vfProperCross(f[i], f[(i+1)%3], o[j], o[(j+1)%3]))
+		}
+	}
+	if vfBool("swap") {
+		fixed, other = other, fixed
+	}
+	var e Polygon
+	var mp MultiPolygon
+	switch vfInt("empty-at", 0, 3) {
+	case 0:
+		mp = NewMultiPolygon([]Polygon{e, fixed, other})
+	case 1:
+		mp = NewMultiPolygon([]Polygon{fixed, e, other})
+	case 2:
+		mp = NewMultiPolygon([]Polygon{fixed, other, e})
+	default:
+		mp = NewMultiPolygon([]Polygon{fixed, other})
+	}
+	// open triangles {x>0,y>0,x+y<4} and {x>tx,y>ty,x+y<tx+ty+2} are disjoint iff
+	disjoint := vfMax(0, t.X)+vfMax(0, t.Y) >= vfMin(4, t.X+t.Y+2)
+	got := mp.Validate() == nil
+	vfAssert(got == disjoint, "valid iff the members' interiors are disjoint, wherever the EMPTY member sits")
+	if got {
 		vfReach("valid")
 	} else {
 		vfReach("invalid")
